@@ -102,7 +102,7 @@ func cmdDump(args []string) int {
 				continue
 			}
 			full := cf.PkgPath + "::" + fc.Key
-			if *fn != "" && !strings.HasSuffix(full, *fn) {
+			if *fn != "" && !strings.Contains(full, *fn) {
 				continue
 			}
 			res := e.verifyFunc(fc)
@@ -123,7 +123,7 @@ func cmdDump(args []string) int {
 		}
 		for _, l := range cf.Lemmas {
 			full := cf.PkgPath + "::lemma " + l.Name
-			if *fn != "" && !strings.HasSuffix(full, *fn) {
+			if *fn != "" && !strings.Contains(full, *fn) {
 				continue
 			}
 			res := e.verifyLemma(l)
